@@ -96,7 +96,7 @@ def _wclass(w):
 def run_case(i, rng, tier):
     label, sp = C.pick_spec(i, rng, tier)
     n = rng.randint(0, 16) if i % 7 else rng.randint(0, 3)
-    stream = S.gen_stream(rng, sp, n)
+    stream = S.gen_stream(rng, sp, n, {"cat_bool": True})
     failures = []
     counters = {}
     sets = {"routing": R.routing_classes(sp, stream), "root_kind": {sp["k"]}, "kinds": S.kinds_in(sp), "stratum": {label.split("<-")[0]}}
